@@ -11,6 +11,7 @@ import vlib
 PID = "C01"
 PROP_FILE = "Props/Properties_C01.v"
 LEVEL = "proof"
+EXTRA_TARGETS = ["Jose/PkAlgs.vo"]   # the BigZ instance evaluated through coqc
 ASSUMPTIONS = [
     "C01: what is proved is that jose's verdict is EXACTLY the any/all composition of the primitive verification predicate sa_verify over exactly protected || '.' || payload with exactly the decoded signature member, for every chunking; that a changed message does not verify under the primitive (EUF-CMA of HMAC/RSA/ECDSA) is cryptography and is not proved",
     "C01: the primitives on the model side are independent Gallina implementations (HMAC-SHA2 extracted to OCaml; RSASSA-PKCS1-v1_5 / PSS / ECDSA over Bignums.BigZ evaluated by vm_compute inside coqc, whose primitive Int63 operations appear in Print Assumptions of those definitions, not of the theorems)",
